@@ -71,11 +71,14 @@ class LocRun:
             ck.finish()
         self.drv, self.mdl = drv, mdl
 
-    def run(self, cases, check_spec=True, nontrivial=None, max_report=8):
+    def run(self, cases, check_spec=True, nontrivial=None, max_report=8, skip_if=None, jobs=None):
         ck = self.ck
-        impl, model, mcases = run_histories(cases, self.drv, self.mdl)
+        impl, model, mcases = run_histories(cases, self.drv, self.mdl, jobs=jobs)
         reported = 0
         for c, i, m in zip(mcases, impl, model):
+            if skip_if and skip_if(c, i):
+                self.stats["skipped_ambiguous_clock"] += 1
+                continue
             self.stats["histories"] += 1
             nt = nontrivial(c) if nontrivial else True
             ck.count({"s": c.get("state"), "ops": [{k: v for k, v in o.items() if k != "now"} for o in c["ops"]]}, nontrivial=nt)
@@ -122,7 +125,7 @@ class LocRun:
                 if check_spec:
                     sp = spec_of(op, mo)
                     g = got_for_spec(op, mo)
-                    if sp is not None and g is not None:
+                    if sp is not None and g is not None and not (g[0] == "err" and g[1] in ("disabled", "readDenied", "writeDenied", "readOnly")):
                         self.stats["spec_checked"] += 1
                         agree = (g == sp) or (g[0] == "ids" and spec_ids(sp) is not None and
                                               set(json.loads(spec_ids(sp))) <= set(json.loads(g[1])))  # SearchRules returns candidates: a superset
@@ -226,3 +229,31 @@ def proof_verdict(ck, pr):
     if pr["failed"] and ck.violations == 0:
         ck.violation("proof obligations of %s no longer check: %s" % (ck.prop, "; ".join(pr["failed"])[:600]),
                      {"theorems": pr.get("failed_theorems") or pr["failed"], "log": pr.get("log", "")[-3000:]}, tag="proof", no_input=True)
+
+
+def clock_ambiguous(case, impl_out):
+    """True when some op of the history ran while the wall clock was at (or crossed) an expiry instant of the history:
+    the model is given one `now` per op, the real code may read the clock several times."""
+    outs = (impl_out or {}).get("outs") or []
+    instants = set()
+    for k, op in enumerate(case["ops"]):
+        doc = op.get("fact") or op.get("rule") or {}
+        now = outs[k].get("now") if k < len(outs) and isinstance(outs[k], dict) else None
+        if now is not None and any("ttl" in d for d in (doc, doc.get("rule") if isinstance(doc.get("rule"), dict) else {})) and outs[k].get("now2", now) != now:
+            return True   # a relative ttl was resolved while the second changed
+        for d in (doc, doc.get("rule") if isinstance(doc.get("rule"), dict) else {}):
+            if isinstance(d.get("expires"), (int, float)):
+                instants.add(int(d["expires"]))
+            if isinstance(d.get("ttl"), (int, float)) and now is not None:
+                instants.add(now + int(d["ttl"]))
+            if isinstance(d.get("ttl"), str) and d["ttl"][:-1].isdigit() and now is not None:
+                mult = {"s": 1, "m": 60, "h": 3600}.get(d["ttl"][-1], 1)
+                instants.add(now + int(d["ttl"][:-1]) * mult)
+    for k, o in enumerate(outs):
+        if k < len(case["ops"]) and case["ops"][k]["op"] == "sleep":
+            continue
+        if isinstance(o, dict) and "now" in o:
+            a, b = o["now"], o.get("now2", o["now"])
+            if any(a <= e <= b for e in instants):
+                return True
+    return False
